@@ -25,6 +25,11 @@ fn iterate(b: &[u8]) -> Result<Result<Vec<String>, RtcpParseError>, drive::Panic
             }
             out.push(format!("{r:?}"));
         }
+        // "one packet per member": the count the iterator reports must be the number it yields
+        let n = Compound::parse(b)?.count();
+        if n != out.len() {
+            out.push(format!("Compound::count() == {n} although iteration yields {} packets", out.len()));
+        }
         Ok(out)
     })
 }
@@ -241,7 +246,7 @@ pub fn run_c14(ctx: &mut Ctx, shard: usize, nshards: usize) {
     {
         let mut k = 0usize;
         for c in crate::mon::writers::relational_cfgs() {
-            for h in 0..4 {
+            for h in 0..8 {
                 k += 1;
                 if k % nshards != shard || (ctx.scale < 0.5 && k % 101 != 0) {
                     continue;
@@ -1255,7 +1260,7 @@ pub fn run_c19(ctx: &mut Ctx, shard: usize, nshards: usize) {
             if !has_foreign(&c) {
                 continue;
             }
-            for h in 0..4 {
+            for h in 0..8 {
                 k += 1;
                 if k % nshards == shard && (!tiny || k % 7 == 0) {
                     check_c19_cfg(ctx, &c, crate::mon::writers::hows(h));
